@@ -6,6 +6,7 @@ require (
 	github.com/corazawaf/coraza-coreruleset v0.0.0-20240226094324-415b1017abdc
 	github.com/corazawaf/coraza/v3 v3.0.0
 	pgregory.net/rapid v1.3.0
+	rsc.io/binaryregexp v0.2.0
 )
 
 require (
@@ -25,7 +26,6 @@ require (
 	golang.org/x/sync v0.21.0 // indirect
 	golang.org/x/text v0.39.0 // indirect
 	google.golang.org/protobuf v1.36.11 // indirect
-	rsc.io/binaryregexp v0.2.0 // indirect
 )
 
 replace github.com/corazawaf/coraza/v3 => /repo
